@@ -320,6 +320,7 @@ func init() {
 	specs["C09"] = net("C09", 2400, 200000, "as C08 (scenario pd6); the reference model remembers every prefix an answer delegated per client identifier and the promised lifetime; every run ends with an audit in which new clients ask until NoPrefixAvail, which must succeed exactly N minus blocks-ever-delegated times", "pd6")
 	specs["C12"] = net("C12", 2400, 200000, "one case = one simulated server lifetime under a drawn DHCPv6 chain with 2..30 datagrams: message type 0..255 (biased to the defined ones), with/without client id and Rapid Commit, Server Identifier none/own/other, relay depth 0..4 with drawn per-layer link/peer addresses, Interface-ID, Remote-ID and extra options, wire-only shapes (outer Relay-Reply, Relay-Forward without relay-message option, truncation, bit flips), source global or link-local, listeners bound/unbound, receiving interface 2..4, duplicates in flight; every captured reply is attributed to its handler task; distinct = distinct (context-switch hash, reply-sequence hash); non-trivial = at least 2 datagrams delivered", "wire6")
 	specs["C14"] = net("C14", 2400, 200000, "one case = one simulated server lifetime with server_id configured for both protocols (every accepted argument spelling) and 2..30 messages: all DHCPv6 client message types x Server Identifier {none, own, other: every DUID kind, other kind over the same address, equal prefix longer/shorter, different time/hwtype} x relay depth 0..4; DHCPv4 DISCOVER/REQUEST x siaddr {absent, zero, own, other} x option 54 {absent, zero, own, other}; distinct = distinct (context-switch hash, reply-sequence hash); non-trivial = at least 2 datagrams delivered", "serverid")
+	specs["C10"] = net("C10", 2400, 200000, "one case = one simulated server lifetime with the file plugin for DHCPv4, DHCPv6 (or both, switch-gated) on an in-memory file system: a lease file drawn from the grammar (every MAC/IP spelling, comments, blank lines, duplicates, at most one malformation), 2..16 requests from listed and unlisted clients (DHCPv6 with/without IA_NA, MAC from DUID or relay peer address) interleaved, under autorefresh, with 1..6 operator updates performed syscall by syscall (in-place rewrite in 1..4 chunks with torn reads, append, rename-over, unlink+recreate, move-away) producing the inotify events of the calibrated model with coalescing, and injected read errors; the reference model is driven by what the plugin actually read; distinct = distinct (context-switch hash, reply-sequence hash); non-trivial = at least 2 datagrams delivered or a rejected start-up", "static")
 	specs["C03"] = net("C03", 2400, 200000, "as C02 but crash-heavy: 1..6 crashes placed at statement boundaries (half inside the range plugin / start-up), plus restarts of the range plugin on copies of the database taken at drawn instants; the database is read back by an independent connection at every crash and at the end", "lease4-crash", "lease4-crash", "lease4", "lease4-sqlfault")
 }
 
